@@ -28,9 +28,9 @@ CHECKS = {
    technique="fault injection through the decoder's existing BufRead seam: seeded and, for small files, enumerated short reads, EINTR, hard I/O errors and premature EOF over stored bytes that went through seeded storage faults; single-chunk decode, single-line decode and torn-prefix decode as reference models",
    text="For ~12% of files <= 600 bytes every two-chunk split, truncation offset, EINTR position and hard-error offset is enumerated; everything else is seeded sampling. Seven oracles (totality, schedule independence, error containment, torn-file equivalence, entry-point agreement, well-formedness, sound pairing).",
    note="Enumeration is per file and single-fault; multi-fault plans and large files are sampled. Known finding in the dependency rosu-map (first fill_buf window of 1-2 bytes) is listed in known_findings.txt."),
- "C10": dict(engine="E4 cross-build trace differ (sim trace x 4 builds, lib/c10.py)", category="exploration", design_ref="5.8",
-   technique="deterministic simulation replayed across build configurations: the same seeded workload (incl. thread hand-over events) is executed by four separately built binaries and the per-call event logs are diffed; disagreements are minimised by delta debugging over the case",
-   text="Seeded workload with emphasis on taiko, converts and maps with breaks of up to 57 minutes, executed under all four feature combinations; logs must match call by call (numerically: -0.0 == 0.0).",
+ "C10": dict(engine="E4 cross-build trace differ (sim trace x 5 builds, lib/c10.py)", category="exploration", design_ref="5.8",
+   technique="deterministic simulation replayed across build configurations: the same seeded workload (incl. thread hand-over events) is executed by five separately built binaries (four feature sets in the shipped profile + the checked default build) and the per-call event logs are diffed; disagreements are minimised by delta debugging over the case",
+   text="Seeded workload with emphasis on taiko, converts and maps with breaks of up to 57 minutes, executed under all four feature combinations in the shipped profile and by the checked default build; logs must match call by call (numerically: -0.0 == 0.0).",
    note="Equality is numeric equality of every reported field as the property states; the four binaries are checked to report the feature set they were built with."),
  "C11": dict(engine="E3 Miri (miri/ mscen) + E1 native with SimAlloc poisoning (sim c11s, c11d, c15, c02)", category="exploration", design_ref="5.9",
    technique="deterministic simulation under a memory monitor: seeded operation histories on the strain list vs a Vec model, on gradual calculators (moves, restarts, early drops, thread hops) and on the decoder with malformed slider paths through byte-wise readers, executed natively with allocator junk/poison and under Miri (Tree Borrows and Stacked Borrows alternating), whose seed fixes schedule and addresses",
